@@ -195,6 +195,16 @@ impl<'a, Traits: ?Sized + Trait, M: MemBuilder> Deref for ElementRef<'a, Traits,
         &self.0
     }
 }
+// ElementRef is a shared (and Clone-able) reference into AnyVec -
+// it can cross thread boundary only if &AnyVec can.
+unsafe impl<'a, Traits: ?Sized + Trait, M: MemBuilder> Send for ElementRef<'a, Traits, M>
+where
+    AnyVec<Traits, M>: Sync
+{}
+unsafe impl<'a, Traits: ?Sized + Trait, M: MemBuilder> Sync for ElementRef<'a, Traits, M>
+where
+    AnyVec<Traits, M>: Sync
+{}
 impl<'a, Traits: ?Sized + Trait, M: MemBuilder> Clone for ElementRef<'a, Traits, M>{
     #[inline]
     fn clone(&self) -> Self {
